@@ -7,67 +7,7 @@ ASSUME = ("Trusted base: go/ssa lowering (x/tools v0.29.0, naive form) of /repo'
           "sequential semantics only; slice/string lengths < 2^31; integer arithmetic is mathematical except in functions whose contract says `safety overflow`; "
           "dependency functions (encoding/binary little-endian, hash/crc32, bytes, errors, time, os.File, strings, strconv2, sort) are replaced by assumed contracts listed in the evidence file. ")
 
-CLAIMS = {
- # id: (level, text, note(unverified), technique, config)
- "C06": ("proof",
-   "Every function of ds/set (New, SAdd, SRem, SHasKey, SCard, SIsMember, SAreMembers, SMembers, SDiff, SInter, SUnion, SPop, SMove, checkKey1AndKey2) is proved against the mathematical-set model for all keys, items and set contents: membership after SAdd/SRem is exactly old plus/minus the given items, other keys and other sets are untouched (frames), the list-returning queries return exactly the members (sound, complete, without duplicates; loop invariants over the map iteration), SPop returns a former member that is then removed, and no call panics.",
-   "Not yet under contract: the transactional layer tx_set.go (in particular the SMove* methods that bypass the log) and the two appliers; SRem refuses an empty item although SAdd accepts it (a weakness of the pinned tree, recorded when the Tx layer is added).",
-   "contract-based deductive verification (weakest-precondition VCs over go/ssa, z3/cvc5)",
-   {}),
-
- "C08": ("proof",
-   "Mechanism-level proof of the replay that makes a reopen reproduce the state: getMaxFileIDAndFileIDs returns the segment ids sorted ascending with the maximum last; parseDataFiles appends one record per entry read, in file/offset order, whose hint carries the file id, the offset that was read, the entry's own metadata and key (and the entry itself in key-value mode) and records a transaction id as committed only for entries with status Committed; buildHintIdx applies a record if and only if its transaction id is in that set (branch condition proved equivalent, and every applier call site asserted); setActiveFile stamps the active file with MaxFileID.",
-   "Not decided: equivalence of the commit-time and open-time appliers for set/list/sorted-set records (appliers are assumed contracts here), so 'operations that were no-ops at commit time' and SMove are not covered; B+ tree insertion is an assumed contract (bounded stand-in pending).",
-   "contract-based deductive verification (weakest-precondition VCs over go/ssa, z3/cvc5)",
-   {}),
- "C09": ("proof",
-   "Proved on the real scan loops: getActiveFileWriteOff keeps ActualSize equal to the offset reached (loop invariant) and stops at a nil entry or io.EOF; parseDataFiles treats a read error at or beyond SegmentSize as the end of the segment (branch condition implied by off >= SegmentSize), never dereferences a missing entry, and every decoded entry it keeps went through DataFile.ReadAt's CRC contract (C21); Open's builders are panic-free under the stated preconditions.",
-   "Not decided (known weaknesses of the pinned tree, not expressible with the current file model): an exactly full *active* MMap segment (ErrIndexOutOfBound instead of io.EOF in getActiveFileWriteOff), a torn last record (ErrCrc aborts Open), ReadBucketMeta creating an empty .meta file on a read path, replay errors of set/list appliers. These need a ghost file-content model for RWManager.ReadAt; until then C09 is a partial claim.",
-   "contract-based deductive verification (weakest-precondition VCs over go/ssa, z3/cvc5)",
-   {}),
- "C19": ("proof",
-   "The places where storage options could change results are under contract: one interface contract for both RWManager implementations is what DataFile.ReadAt / Commit rely on; the hint stored at commit time and at open time is proved to be (file id, offset of the bytes written / read) so that key-only mode reads the bytes key-value mode keeps in RAM; setActiveFile stamps the reopened active file with its id; IsExpired is mode independent and proved equal to the mathematical definition for all 64-bit values; the end-of-segment test of the loader covers the MMap error at an exactly full sealed segment.",
-   "Not decided: that MMapRWManager / FileIORWManager satisfy the interface contract (their bodies are not yet verified - the MMap short read is a known weakness), sparse mode vs RAM modes (C02), SyncEnable (C11).",
-   "contract-based deductive verification (weakest-precondition VCs over go/ssa, z3/cvc5)",
-   {}),
- "C01": ("proof",
-   "Currently only the expiry rule and the hint discipline are decided: IsExpired(ttl, timestamp) is proved equal to !(ttl == 0 || now < timestamp + ttl) over mathematical integers for every ttl, timestamp and clock value, with no overflow (after the recorded fix); Commit is proved to index every key/value record under the offset and file at which its bytes were just written.",
-   "Not yet under contract: Tx.Get and the scan wrappers (committed/tombstone/expiry filtering), and the B+ tree (ordered-map behaviour needs the bounded stand-in BS1). The claim is therefore partial.",
-   "contract-based deductive verification (weakest-precondition VCs over go/ssa, z3/cvc5)",
-   {}),
-
- "C22": ("proof",
-   "DB.checkEntryIdxMode is proved (loop invariants over the directory listing, both directions) to return an error exactly when the directory holds data files together with / without the sparse-index directory in the wrong mode, for every listing; Open is proved to return that error before any further file-system mutation (at most the idempotent MkdirAll of the root precedes it) and never to succeed on a mismatching directory.",
-   "Not decided: that sparse directories always contain bpt/ and RAM directories never do (frame over the path helpers), directories left by a crash between MkdirAlls, and 'same contents' when switching between the two RAM modes (that is C19/C08). ioutil.ReadDir, path.Ext/Base, os.MkdirAll and filesystem.PathIsExist are assumed contracts; DB.buildIndexes is an assumed contract (it runs only after the check).",
-   "contract-based deductive verification (weakest-precondition VCs over go/ssa, z3/cvc5)",
-   {}),
- "C10": ("proof",
-   "Mechanism-level proof on the real write path: Tx.put buffers a well-formed entry stamped with the transaction id and status UnCommitted and preserves the Tx invariant; Tx.Commit (loop invariant over all pending entries) writes every entry at writeOff == ActualSize inside the segment, marks exactly the last one Committed, advances the offsets only after a successful write (and sync), and rotateActiveFile installs a fresh empty active file; on every error return after a failed write the offsets still point at the failed record, so no hole or half-counted record precedes later commits.",
-   "Not decided here: the recovery side (parseDataFiles / buildHintIdx committed-id filter) and the crash lemma over a ghost log are not yet under contract; transaction-id uniqueness (snowflake node per transaction) is a known weakness not modelled; the OS appending what WriteAt was given is assumed (interface contract RWManager.WriteAt/Sync/Close, NewDataFile assumed).",
-   "contract-based deductive verification (weakest-precondition VCs over go/ssa, z3/cvc5)",
-   {}),
- "C11": ("proof",
-   "Typestate proof with ghost counter `unsynced` (file writes not yet followed by a successful Sync): with SyncEnable the loop invariant of Tx.Commit shows unsynced == 0 before every record write and at the successful return, and Tx.rotateActiveFile preserves it; so the durable image is always a prefix of whole records ending, after Commit returns, with the commit marker.",
-   "Assumed: fsync/msync persist data and the directory entry; the sparse-mode index writers (WriteNodes, Persistence, buildTxIDRootIdx, buildBucketMetaIdx) have assumed contracts ('sync when SyncEnable') - their bodies are not yet verified; recovery succeeding on that image is C09/C10.",
-   "contract-based deductive verification (ghost typestate), z3/cvc5",
-   {}),
- "C12": ("proof",
-   "Tx.put is proved to refuse (and leave pendingWrites untouched) on a closed or read-only transaction and on an empty key; Tx.Commit is proved, at every one of its nine return statements, to leave lock state and tx.db untouched on failure, not to rotate before rejecting an oversized first entry, and to keep KeyCount; the obligation 'a failed Commit has not touched the in-memory indexes' fails at six return statements - a genuine defect of the pinned tree, listed in known-findings.json by obligation name.",
-   "Not yet under contract: Rollback, DB.managed, the frames of the exported Tx API methods (SMove* in particular). After-reopen effects of a failed commit rest on C10.",
-   "contract-based deductive verification (weakest-precondition VCs over go/ssa, z3/cvc5)",
-   {}),
-
- "C21": ("proof",
-   "Every obligation generated from the contracts on the real encode/decode functions (Entry.Encode/Size/GetCrc/IsZero, readMetaData, DataFile.ReadAt, BPTreeRootIdx.*, ReadBPTreeRootIdxAt, BucketMeta.*, ReadBucketMeta) is discharged by an SMT solver for all field values and lengths: the encoders produce the stated byte layout and CRC, and a decoder returns a record only when its CRC field equals the CRC of the stored header bytes and the returned bucket/key/value, with every returned field decoded from those bytes. No panic for any input.",
-   "Not decided: that CRC-32 detects a given corruption (property of the polynomial, assumed); the composition encode->write->read as one lemma (both sides are proved against the same format predicate); B+ tree node files (encoding/binary reflection). MMap short reads are a C19 matter.",
-   "contract-based deductive verification (weakest-precondition VCs over go/ssa, z3/cvc5)",
-   {}),
- "C05": ("proof",
-   "Contracts on the real ds/list functions (New, Size, LPeek, RPeek, LRange, LPop, RPop, LSet, Ltrim, RPush) state the Redis-list model pointwise (negative-index normalisation, clamping, element-wise content, other keys untouched, frame) and every generated obligation - postconditions, loop invariants, frames, absence of panics and of index-arithmetic overflow - is discharged for all lists, keys, values and indexes; failing obligations that are genuine defects of the pinned tree are listed in known-findings.json.",
-   "Not yet under contract (so not decided): LPush, LRem/LRemNum, the transactional layer tx_list.go and the list branches of the two appliers; '|' in values therefore undecided.",
-   "contract-based deductive verification (weakest-precondition VCs over go/ssa, z3/cvc5)",
-   {}),
-}
+CLAIMS = {k: (v["level"], v["text"], v["note"], v["technique"], v.get("config", {})) for k, v in json.load(open("/verif/claims.json")).items()}
 NA_REASON = {
  "C16": "needs an inductive refinement invariant over intermediate multi-file directory states at every crash point of Merge; no per-function contract expresses it; the write-before-remove ordering it rests on is checked under C15",
 }
